@@ -36,7 +36,8 @@ ASSUMPTIONS = [
     "column of those rows) when that is less likely; the guess is read back from the object handed in (init='random': "
     "from the returned guess)",
     "maxiters >= 1; stoptime only at values far beyond any run time (no wall-clock influence); epsDivZero in "
-    "[1e-16, 1e-3] (1e-300 makes x/eps overflow: not an admissible safeguard)",
+    "[1e-16, 1e-3] (1e-300 makes x/eps overflow: not an admissible safeguard); kappa in [1e-10, 0.1], kappatol in "
+    "[1e-16, 1e-3] (MU's slackness offset is not a descent step: kappa = 1 with kappatol = 0.1 can end below the guess)",
     "data has at least one positive count; N >= 2 (tt_loglikelihood unfolds along mode 1)",
     "float32 data is left out: pyttb computes in the data's precision where a float32 array meets a Python scalar, so "
     "the 1e-9 objective tolerance would not be justified",
@@ -144,8 +145,10 @@ def _option_draw(draw, alg, wide=True):
              printitn=draw(st.sampled_from([0, 0, 0, 1, 2, 3])),
              printinneritn=draw(st.sampled_from([0, 0, 1, 2])))
     if alg == "mu":
-        c["kappa"] = draw(st.sampled_from([0.01, 0.01, 0.1, 1e-3, 1e-10, 1.0]))
-        c["kappatol"] = draw(st.sampled_from([1e-10, 1e-10, 1e-3, 1e-16, 0.1]))
+        # (the complementary-slackness offset is not a descent step: with kappa of the order of the normalised factor
+        #  entries themselves a run may end below its guess, so kappa stays <= 0.1 and kappatol <= 1e-3)
+        c["kappa"] = draw(st.sampled_from([0.01, 0.01, 0.1, 1e-3, 1e-10]))
+        c["kappatol"] = draw(st.sampled_from([1e-10, 1e-10, 1e-3, 1e-16]))
     else:
         c["epsActive"] = draw(st.sampled_from([1e-8, 1e-8, 1e-3, 1e-14, 0.1]))
         c["precompinds"] = draw(st.booleans())
